@@ -29,7 +29,11 @@ def check(chk: Check) -> None:
                             'through <Op field>.eval(state) on every invocation', floor=1)
     R7 = chk.rule('C01.R7', 'the VM state does not outlive its eval call: it is not captured by an escaping '
                             'closure nor stored anywhere', floor=12)
+    R8 = chk.rule('C01.R8', 'the ops-limit error is never swallowed: no handler in code that runs during an evaluation catches '
+                            'the ops-limit class (ParserError, Exception, bare except ...) and then continues or raises '
+                            'something else', floor=8)
     chk.decided += ['who charges, when, by how much, with which comparison, against which number (R1,R3,R5)',
+                    'propagation of the ops-limit error through every handler on the evaluation paths (R8)',
                     'budget forwarded unmodified into a fresh state (R4)', 'lambda bodies charged (R6)',
                     'cross-call clause: state escape (R7)', 'every node kind is chargeable (R2)']
     chk.not_decided += ['"effects of an aborted run are a prefix of the unbounded run" beyond R1+R5: needs '
@@ -49,6 +53,66 @@ def check(chk: Check) -> None:
     # --------------------------------------------------------------- R6 / R7
     common.lambda_bodies_charged(chk, R6)
     common.state_does_not_escape(chk, R7)
+    _r8(chk, R8)
+
+
+def _r8(chk: Check, R8: str) -> None:
+    """Every except clause reachable during an evaluation that can catch the ops-limit error must re-raise it."""
+    F = chk.facts
+    from .c02 import entry_units
+    from ..symexec import closure_paths
+    limit = [q for q in F.subclasses(om.PARSER_ERROR) if q != om.PARSER_ERROR]
+    if not limit:
+        raise AnalysisError('anchor vanished: no ops-limit subclass of ParserError')
+    lim = limit[0]
+    seen = {}
+    for label, fi, _ in entry_units(chk):
+        if fi.module.name.endswith(('.lexer', '.rules')) or label.endswith(('.parse', '.list_names')):
+            continue          # lexing/parsing never charges operations
+        se = SymExec(F, fi)
+        paths = se.run()
+        allp = list(paths)
+        for p in paths[:1]:
+            for c in p.closures:
+                allp += closure_paths(F, fi, c)
+        for p in allp:
+            for e in p.events:
+                if e.kind != 'exc_edge':
+                    continue
+                h = e.d['handler']
+                types = e.d['types']
+                catches_limit = False
+                for t in types:
+                    r = se.exc_subclass(('cls', lim), t)
+                    if r is True:
+                        catches_limit = True
+                if not catches_limit:
+                    continue
+                key = '%s :: except %s (line %d)' % (e.fn, '/'.join(q for _, q in types), h.lineno)
+                rc = common.raised_class(F, p.outcome[1]) if p.outcome[0] == 'raise' else None
+                reraises = p.outcome[0] == 'raise' and (freeze(p.outcome[1])[:1] == ('exc',) or freeze(p.outcome[1]) == ('unknown', 'reraise')
+                                                        or (rc is not None and rc == ('cls', lim)))
+                prev = seen.get(key, (True, '', 0, ''))
+                if not reraises:
+                    what = 'continues normally' if p.outcome[0] != 'raise' else 'raises %s instead' % show(p.outcome[1])
+                    seen[key] = (False, 'this handler also catches the ops-limit error (a %s) and %s: a run that exceeds its '
+                                        'budget inside the guarded code is not stopped' % (lim.rsplit('.', 1)[-1], what), h.lineno, fi.module.rel)
+                elif prev[0]:
+                    seen[key] = (True, 're-raises', h.lineno, fi.module.rel)
+    for key, (ok, det, line, rel) in sorted(seen.items()):
+        chk.require(ok, R8, key, '%s:%d' % (rel, line), det)
+    # handlers that cannot catch it are the normal case: record them so the rule is not vacuous
+    n = 0
+    for label, fi, _ in entry_units(chk):
+        if fi.module.name.endswith(('.lexer', '.rules')):
+            continue
+        for node in ast.walk(fi.node):
+            if isinstance(node, ast.ExceptHandler):
+                n += 1
+                ts = [F.resolve_expr(fi.module, t) for t in (node.type.elts if isinstance(node.type, ast.Tuple) else [node.type])] if node.type is not None else [('builtin', 'BaseException')]
+                k = '%s :: except %s (line %d)' % (fi.qual, '/'.join(str(q) for _, q in ts), node.lineno)
+                if not any(k2.endswith('(line %d)' % node.lineno) and fi.qual.rsplit('.', 1)[-1] in k2 for k2 in seen):
+                    chk.ok(R8, k, '%s:%d' % (fi.module.rel, node.lineno), 'cannot catch the ops-limit error')
 
 
 def charge_rules(chk: Check, R1: str, R3: str) -> None:
